@@ -8,9 +8,12 @@ import (
 
 	goerrors "github.com/ajitpratap0/GoSQLX/pkg/errors"
 	"github.com/ajitpratap0/GoSQLX/pkg/models"
+	"github.com/ajitpratap0/GoSQLX/pkg/sql/parser"
 	"github.com/ajitpratap0/GoSQLX/pkg/sql/tokenizer"
 	"pgregory.net/rapid"
+	"verif/gen/corrupt"
 	"verif/gen/lexgen"
+	"verif/gen/sqlgen"
 	"verif/internal/hx"
 	"verif/internal/obs"
 )
@@ -181,11 +184,11 @@ func TestTokenPositions(t *testing.T) {
 // ---------------------------------------------------------------- tokenizer error locations
 
 type ErrCase struct {
-	Src     string `json:"src"`
-	Family  string `json:"family"`
-	Off     int    `json:"off"`      // first byte of the offending element
-	End     int    `json:"end"`      // one past its last byte
-	Exact   bool   `json:"exact"`    // location must be exactly the first character
+	Src    string `json:"src"`
+	Family string `json:"family"`
+	Off    int    `json:"off"`   // first byte of the offending element
+	End    int    `json:"end"`   // one past its last byte
+	Exact  bool   `json:"exact"` // location must be exactly the first character
 }
 
 var badLexemes = []struct {
@@ -287,3 +290,131 @@ func TestTokenizerErrorLocation(t *testing.T) {
 }
 
 var _ = models.Location{}
+
+// ---------------------------------------------------------------- parser error locations
+
+type PErrCase struct {
+	Src    string          `json:"src"`
+	Tokens []lexgen.ExpTok `json:"tokens"` // generated tokens with positions (the corrupted statement)
+	First  int             `json:"first"`  // index of the first corrupted token
+	Exact  bool            `json:"exact"`  // the parser must reject exactly at token First
+	Kind   string          `json:"kind"`
+}
+
+func oraclePErr(c PErrCase) error {
+	tkz, _ := tokenizer.New()
+	toks, err := tkz.Tokenize([]byte(c.Src))
+	if err != nil {
+		return nil
+	}
+	p := parser.NewParser()
+	_, err = p.ParseFromModelTokensWithPositions(toks)
+	if err == nil {
+		if c.Exact {
+			return fmt.Errorf("%s: a token no statement can contain at that point was accepted", c.Kind)
+		}
+		return nil
+	}
+	var se *goerrors.Error
+	if !errors.As(err, &se) {
+		return nil // C13's business
+	}
+	l := se.Location
+	if l.Line < 1 || l.Column < 1 {
+		hx.Class("parser_error_location", "location_unset")
+		return nil // unset ({0,0} and {1,0} are the code base's "no position" values)
+	}
+	hx.Class("parser_error_location", "location_set")
+	// candidate positions: start of every generated token and the end of input.
+	// A candidate matches when the reported column equals its rune column or the
+	// column under the library's own convention (bytes, tab = 4): identification
+	// only - which token is meant - not an assertion about tab/non-ASCII columns.
+	libCol := func(off int) int {
+		ls := strings.LastIndexByte(c.Src[:off], '\n') + 1
+		col := 1
+		for i := ls; i < off; i++ {
+			if c.Src[i] == '\t' {
+				col += 4
+			} else {
+				col++
+			}
+		}
+		return col
+	}
+	type cand struct {
+		idx       int
+		line, col int
+		lib       int
+	}
+	var cs []cand
+	for i, t := range c.Tokens {
+		cs = append(cs, cand{i, t.Line, t.Col, libCol(t.Off)})
+	}
+	el, ec, _ := lexgen.Locate2(c.Src, len(c.Src))
+	cs = append(cs, cand{len(c.Tokens), el, ec, libCol(len(c.Src))})
+	hit := -1
+	for _, k := range cs {
+		if k.line == l.Line && (k.col == l.Column || k.lib == l.Column) {
+			hit = k.idx
+			break
+		}
+	}
+	if hit < 0 {
+		return fmt.Errorf("%s: error located at %d:%d, which is not the start of any token (nor the end of input)", c.Kind, l.Line, l.Column)
+	}
+	// a parser that looks one token ahead may name the token before the one that
+	// cannot continue the statement ("ON" in "ON DO NOTHING"): both are accepted
+	lower := c.First - 1
+	if hit < lower {
+		// every proper prefix before the first corrupted token is the prefix of a valid statement
+		ft := c.Tokens[minInt(c.First, len(c.Tokens)-1)]
+		return fmt.Errorf("%s: error located at %d:%d (token %d) but the text is a viable prefix up to token %d at %d:%d", c.Kind, l.Line, l.Column, hit, c.First, ft.Line, ft.Col)
+	}
+	if c.Exact && hit != c.First && hit != lower {
+		ft := c.Tokens[c.First]
+		return fmt.Errorf("%s: offending token %q is token %d at %d:%d, error located at %d:%d (token %d)", c.Kind, ft.Text, c.First, ft.Line, ft.Col, l.Line, l.Column, hit)
+	}
+	return nil
+}
+
+func minInt(a, b int) int {
+	if a < b {
+		return a
+	}
+	return b
+}
+
+var perrCheck = hx.NewCheck("parser_error_location", oraclePErr)
+
+func TestParserErrorLocation(t *testing.T) {
+	hx.Rule("parser_error_location", "G-SQL statement with one token-level corruption (delete/duplicate/swap/replace/insert/truncate, or a stray ']' that no viable prefix admits), laid out over several lines with comments, parsed with position tracking; a set error location must be the start of a token at or after the first corrupted token, and exactly the stray token for that family; non-trivial = corruption not on line 1; distinct = (kind, position, layout)")
+	perrCheck.Rapid(t, hx.N(6000, 300000), func(rt *rapid.T) PErrCase {
+		g := sqlgen.New(rt, sqlgen.AllFeatures())
+		st := sqlgen.Statement(g)
+		var r corrupt.Result
+		exact := false
+		if rapid.IntRange(0, 2).Draw(rt, "family") > 0 {
+			if s, ok := corrupt.InsertStray(rt, st.Toks); ok {
+				r, exact = s, true
+			}
+		}
+		if !exact {
+			if len(st.Toks) < 2 {
+				st.Toks = append(st.Toks, sqlgen.Tok{Text: ";"})
+			}
+			r = corrupt.Apply(rt, st.Toks)
+		}
+		if len(r.Toks) == 0 {
+			r.Toks = []sqlgen.Tok{{Text: ")"}}
+			r.First = 0
+		}
+		lx := sqlgen.Lexemes(r.Toks)
+		f := lexgen.Features{StringStartsWithDoubledQuote: true, TrailingComment: true, Comments: true}
+		tx := lexgen.Render(lx, lexgen.GenSeps(rt, f, lx, "l"))
+		first := r.First
+		nt := first < len(tx.Tokens) && tx.Tokens[first].Line > 1
+		hx.Case("parser_error_location", nt, fmt.Sprintf("%s|%d|%s", r.Kind, first, strings.Join(tx.SepClass, ",")), "kind_"+r.Kind)
+		hx.Sample("parser_error_location", tx.Src)
+		return PErrCase{Src: tx.Src, Tokens: tx.Tokens, First: first, Exact: exact, Kind: r.Kind}
+	})
+}
